@@ -22,6 +22,7 @@ import (
 	"sigs.k8s.io/gateway-api/apis/v1alpha2"
 	"sigs.k8s.io/gateway-api/apis/v1beta1"
 
+	ngfAPIv1alpha1 "github.com/nginx/nginx-gateway-fabric/apis/v1alpha1"
 	"github.com/nginx/nginx-gateway-fabric/internal/framework/events"
 	"github.com/nginx/nginx-gateway-fabric/internal/framework/helpers"
 	vu "github.com/nginx/nginx-gateway-fabric/internal/verifutil"
@@ -301,6 +302,12 @@ func c01Histories(out *vu.Out, rng *vu.Rng, n int, focusGrants bool) {
 					later = append(later, op{del: true, obj: old, then: o})
 					continue
 				}
+				// some changed objects are replaced (deleted and created with the new content) instead of being updated; the
+				// ClientSettingsPolicy of the history layer more often
+				if ok && (r.Chance(1, 6) || (c01Kind(o) == "ClientSettingsPolicy" && r.Bool())) {
+					later = append(later, op{del: true, obj: old, then: o})
+					continue
+				}
 				later = append(later, op{del: false, obj: o})
 			}
 		}
@@ -408,7 +415,8 @@ func c01Histories(out *vu.Out, rng *vu.Rng, n int, focusGrants bool) {
 					gens[k]++
 				}
 			} else {
-				gens[k]++
+				// an object created (again) starts at generation 1, whatever an earlier object of the name had reached
+				gens[k] = 1
 			}
 			switch c01Kind(o) {
 			case "Service", "Secret", "ConfigMap", "Namespace":
@@ -708,6 +716,23 @@ func c01Extras(r *vu.Rng, a *vsCluster, flags *[]string) (before, after []client
 				before = append(before, c01Slice(s.NS, s.Name, "x2", []string{"10.0.8.8"}, true, 1))
 			}
 		}
+	}
+	// a ClientSettingsPolicy on the first Gateway whose body size is a size NGINX takes, or not (a value a CRD of another
+	// version may let through: the controller's own validation decides), before and after
+	if len(a.Gateways) > 0 && r.Chance(1, 3) {
+		mk := func(size string) client.Object {
+			return &ngfAPIv1alpha1.ClientSettingsPolicy{ObjectMeta: metav1.ObjectMeta{Namespace: a.Gateways[0].NS, Name: "csp-hist"},
+				Spec: ngfAPIv1alpha1.ClientSettingsPolicySpec{
+					TargetRef: v1alpha2.LocalPolicyTargetReference{Group: gatewayv1.GroupName, Kind: "Gateway", Name: gatewayv1.ObjectName(a.Gateways[0].Name)},
+					Body:      &ngfAPIv1alpha1.ClientBody{MaxSize: helpers.GetPointer(ngfAPIv1alpha1.Size(size))}}}
+		}
+		sizes := []string{"10m", "512k", "10 m;", "1q"}
+		x, y := sizes[r.Intn(4)], sizes[r.Intn(4)]
+		before = append(before, mk(x))
+		if r.Chance(5, 6) {
+			after = append(after, mk(y))
+		}
+		*flags = append(*flags, "client-settings-policy")
 	}
 	return before, after
 }
